@@ -1,9 +1,9 @@
 (* C18 -- periodic table data are complete and mutually consistent.
    Only statements here; proofs are in Proofs.PeriodicTable.  Tables are regenerated from /repo. *)
 From Coq Require Import ZArith List String Bool.
-From Model Require Import PyBase PeriodicTable.
-From Gen Require Import Elements RuntimeDump.
-From Proofs Require Import PeriodicTable.
+From Model Require Import PyBase PeriodicTable IsoBits.
+From Gen Require Import Elements RuntimeDump IsoLayout.
+From Proofs Require Import PeriodicTable IsoLayoutTie PeriodicMatcher.
 Import ListNotations.
 Open Scope Z_scope.
 
@@ -140,3 +140,40 @@ Theorem C18_variants_exist :
   List.length rt_dynamic = 118%nat /\ List.length rt_query = 118%nat.
 Proof. exact variants_exist. Qed.
 Print Assumptions C18_variants_exist.
+
+(* ---- matcher bit layout AS WRITTEN IN THE SOURCE: Gen.IsoLayout is regenerated from the statements of
+        MoleculeIsomorphism._cython_compiled_structure / QueryIsomorphism._cython_compiled_query (tools/gen_isolayout.py) ---- *)
+
+(* the regenerated encoders are, for every atom / query atom / query bond, the hand-written model encoders on which the
+   C09 exactness theorems are proved (a changed literal, shift, threshold or branch breaks this) *)
+Theorem C18_source_structure_layout_is_model : forall a, g_enc_atom a = enc_atom a.
+Proof. exact g_enc_atom_eq. Qed.
+Print Assumptions C18_source_structure_layout_is_model.
+
+Theorem C18_source_query_layout_is_model : forall q b, g_enc_qatom q b = enc_qatom q b.
+Proof. exact g_enc_qatom_eq. Qed.
+Print Assumptions C18_source_query_layout_is_model.
+
+(* every tabulated state (118 elements x (no isotope | tabulated isotope) x charge -4..4 x radical x hydrogens 0..4) lies in
+   the range where the mask test is exact ... *)
+Theorem C18_tabulated_states_in_matcher_range : forallb (fun e => forallb atom_ok (state_atoms e)) elements = true.
+Proof. exact tabulated_states_atom_ok. Qed.
+Print Assumptions C18_tabulated_states_in_matcher_range.
+
+(* ... is found, on the source encoders, by the element / any-element / list queries that leave isotope and hydrogens open
+   and by the query spelling its isotope out, and is not found by a query with another hydrogen count ... *)
+Theorem C18_tabulated_states_found_by_source_layout : forallb (fun e => forallb state_found (state_atoms e)) elements = true.
+Proof. exact tabulated_states_found. Qed.
+Print Assumptions C18_tabulated_states_found_by_source_layout.
+
+(* ... and for EVERY in-range query the source layout decides the reference comparison __eq__ on it *)
+Theorem C18_tabulated_states_decided_by_source_layout : forall e a q,
+  In e elements -> In a (state_atoms e) -> query_ok q = true -> elem_hyp q (la_num a) ->
+  mask_match_first (g_enc_qatom q None) (g_enc_atom a) = match_atom q a.
+Proof. exact tabulated_states_decided. Qed.
+Print Assumptions C18_tabulated_states_decided_by_source_layout.
+
+Theorem C18_tabulated_state_example :
+  exists e, from_number 7 = Some e /\ In (mkLA 7 (Some 15) 1 false 0 1 (Some 4) 0 []) (state_atoms e).
+Proof. exact state_atoms_example. Qed.
+Print Assumptions C18_tabulated_state_example.
